@@ -84,6 +84,12 @@ def generate(prng, tier, index):
     pol = prng.choice(({}, {"float": "extreme"}, {"float": "lo"}, {"float": "hi"}, {"float": "mix", "p": 0.4},
                        {"int": "min"}, {"int": "max"}, {"int": "sticky"}, {"int": "mix", "p": 0.5},
                        {"float": "mix", "int": "mix", "p": 0.3}))
+    if prng.random() < 0.05:
+        # huge degrees: per-topology totals around and beyond 2**53 / 2**63 (exact integer arithmetic must survive)
+        base = prng.choice((2 ** 53, 2 ** 53 + 1, 2 ** 54 - 1, 10 ** 16 + 1, 2 ** 63, 2 ** 64 + 3, 10 ** 11 + 1, 10 ** 19))
+        keys = [[x + base * prng.choice((0, 1, 1, 3)) for x in k] for k in keys]
+        if len({tuple(k) for k in keys}) != len(keys):
+            keys = [[k2 + i for k2 in k] for i, k in enumerate(keys)]
     sc = {"variant": variant, "keys": keys, "weights": w, "sizes": sizes,
           "N": prng.randrange(1, 61 if big else 16) if prng.random() > 0.02 else prng.randrange(100, 400), "policy": pol, "via": prng.choice(("direct", "dispatch")),
           "samples": prng.choice((1, 1, 2, 3))}
@@ -220,8 +226,10 @@ def execute(sc, ctx):
         good = check_sample(sc, ctx, res, jdd, jdd_before, obj, tag)
         if any((not isinstance(e, tuple)) or e not in jdd_before for e in res):
             patched = True
-        if good:
+        if good and sum(sum(e) for e in res) <= 20000:
             check_usable(sc, ctx, res, gsrc, tag)
+        elif good:
+            ctx.probe("usable_skipped_huge_degrees")
         ctx.result("sample", repr(res))
     ctx.nontrivial = patched or sc["N"] >= 2
     if any(s == 1 for s in sc["sizes"]):
